@@ -149,7 +149,7 @@ func checkC05(w *World, r *Recorder) propInfo {
 			col.observe(in, st, depth)
 		}
 		if init == nil {
-			init = newState()
+			init = e.RootState()
 		}
 		assumeParams(e, fn, init)
 		t0 := time.Now()
